@@ -35,6 +35,7 @@ WORKLOADS = [
     # older results of which only some files are left (an earlier interrupted write, a user tidying up): mask = .dat .smp .cov
     "corrdata_files_over_partial:011", "corrdata_files_over_partial:010", "corrdata_files_over_partial:101",
     "corrdata_files_over_partial:110", "corrdata_files_over_partial:001", "histdata_files_over_partial:011",
+    "create_many_patches",
 ]
 
 
@@ -120,7 +121,7 @@ class C08(Check):
         if tier == "quick":
             for w in ("create_fresh", "create_overwrite", "create_buffered", "trees_fresh", "trees_other_edges",
                       "trees_forced_other_edges", "measure_over_cached", "corrfunc_file_fresh", "corrdata_files_dotted_over_old",
-                      "config_file_over_old", "corrdata_files_over_partial:011"):
+                      "config_file_over_old", "corrdata_files_over_partial:011", "create_many_patches"):
                 for s in range(4):
                     yield dict(workload=w, shard=s, of=4, stride=1, seed=seed)
             for s in range(2):
@@ -168,7 +169,8 @@ class C08(Check):
                 spec["prepare"]()
 
             fresh_state()
-            status, ops = crashpoint.trace(spec["workload"], state, tmp / "trace0.txt")
+            trace_root = spec.get("trace_root", state)
+            status, ops = crashpoint.trace(spec["workload"], trace_root, tmp / "trace0.txt")
             if not ops:
                 return [result(ERROR, detail=f"no file-system operations traced for {wname} (status {status})", nontrivial=False)]
             counters["operations_in_trace"] = len(ops) if case["shard"] == 0 else 0
@@ -181,7 +183,7 @@ class C08(Check):
             for op in mine:
                 fresh_state()
                 if op is None:
-                    crashpoint.trace(spec["workload"], state, tmp / "trace_done.txt")
+                    crashpoint.trace(spec["workload"], trace_root, tmp / "trace_done.txt")
                     label = "completed"
                 else:
                     ok, info = False, ""
@@ -191,7 +193,7 @@ class C08(Check):
                         if attempt:
                             fresh_state()
                             counters["injector_retries"] = counters.get("injector_retries", 0) + 1
-                        ok, info = crashpoint.crash_at(spec["workload"], state, tmp / f"trace_{op.index}.txt", op, ops[: op.index], ops[op.index + 1:])
+                        ok, info = crashpoint.crash_at(spec["workload"], trace_root, tmp / f"trace_{op.index}.txt", op, ops[: op.index], ops[op.index + 1:])
                         if ok:
                             break
                     counters["crash_points_injected"] = counters.get("crash_points_injected", 0) + 1
@@ -467,6 +469,24 @@ class C08(Check):
             spec = dict(prepare=prepare, workload=workload, references=catalog_refs(allowed, ["A"]),
                         probes={"open": probe_open, "measure:A": probe_measure(cfgA)},
                         judge=lambda p, v, r: judge_catalog(p, v, r, allowed))
+        elif wname == "create_many_patches":
+            # more patches than fit into one write buffer of the id list (2 bytes each): 2100 one-object patches.
+            # Only the operations on the id list itself are crash points here (the rest is covered by create_fresh).
+            nmany = 2100
+            many = cats.table(np.deg2rad(np.linspace(0.0, 300.0, nmany)), np.zeros(nmany), w=np.arange(nmany) + 0.5, patch=np.arange(nmany))
+
+            def workload():
+                cats.create(ref_dir, many)
+
+            def many_refs():
+                d = tmp / "fresh-many"
+                shutil.rmtree(d, ignore_errors=True)
+                val = digest_records(cats.create(d, many))
+                shutil.rmtree(d)
+                return dict(records=dict(new=val), measure={})
+
+            spec = dict(prepare=lambda: None, workload=workload, references=many_refs, probes={"open": probe_open},
+                        judge=lambda p, v, r: judge_catalog(p, v, r, ("new",)), trace_root=str(ref_dir / "patch_ids") + "*")
         elif wname == "reopen_compute_meta":
             def prepare():
                 cats.create(ref_dir, world.new, centers=world.cobj())
